@@ -1,13 +1,20 @@
 (* Prop_C01.v — C01: deadlock freedom for every mix of locks and collections.
-   The rank argument, for ANY number of threads, ANY programs, ANY lock universe and both RwLock grant
+   (1) The rank argument, for ANY number of threads, ANY programs, ANY lock universe and both RwLock grant
    policies: in a Level-B state in which (i) a waiting thread holds only locks of lower rank than the one it
    waits for, (ii) holders are live threads of the system and (iii) started threads are parked on their next
    operation, SOME thread can move whenever some thread is unfinished; in particular nobody waits for a lock
-   it holds itself.  The hypotheses are a decidable test (stable_b), proved sound, and the check evaluates it
-   (with the scenario's address-based rank function, bounded by rk_bound) in every state each explored
-   schedule goes through.  What remains unproved is that every state reachable by the programs of Api.v
-   passes the test for all schedules (see DESIGN.md); it is checked on every explored execution. *)
-From HL Require Import Base Model Shape Algo Api Conc OpsLemmas Pf_C01.
+   it holds itself (Pf_C01.v).
+   (2) Every state the interleaved model reaches, under EVERY schedule, from the initial state of a scenario
+   that passes the decidable test [wfB] (no ghost holds, no injected faults, every collection's blocking
+   acquisitions ascend in the scenario's address-based rank, every thread's program drops the guards it takes
+   and forgets none) is such a state: C01_every_schedule.  The proof is a thread-local program logic (Wp.v)
+   whose judgement says "every blocking acquisition is requested above everything the thread holds"; it is
+   sound for the one-operation interpreter against arbitrary interference (Wp.wp_step, wp_adv), holds of every
+   acquisition / release algorithm of Algo.v including the retrying one (WpAlgo.v) and of every API call
+   (WpApi.api_wp), and is carried through turns and schedules in WpMain.v.  Hence the model never reports a
+   deadlock or a self-wait: C01_model_never_deadlocks.
+   The check evaluates [wfB] on every generated scenario and compares the model with the implementation. *)
+From HL Require Import Base Model Shape Algo Api Conc OpsLemmas Pf_C01 Wp WpAlgo WpApi WpMain.
 
 Theorem C01_no_deadlock :
   forall nl wp rk N s, stable_state nl wp rk N s -> (exists t, live s t) -> exists t', enabled wp s t' = true.
@@ -54,7 +61,61 @@ Example C01_example :
   existsb (fun e => match e with BWait _ _ _ => true | _ => false end) (bo_evs (model_bobs ex01 used)) = true.
 Proof. vm_compute. auto. Qed.
 
+
+(* ---------------------------------------------------------------- every schedule *)
+Theorem C01_every_schedule :
+  forall b sched, wfB b = true ->
+  let sc := bs_sc b in
+  stable_state (sc_nlocks sc) (bs_wp b) (rk_of sc) (bound_of sc)
+               (fst (run_sched (bs_wp b) (sc_env sc) (sc_nlocks sc) (binit b) sched)).
+Proof. exact every_schedule_stable_dec. Qed.
+
+Theorem C01_every_schedule_deadlock_free :
+  forall b sched, wfB b = true ->
+  let sc := bs_sc b in
+  let s := fst (run_sched (bs_wp b) (sc_env sc) (sc_nlocks sc) (binit b) sched) in
+  (exists t, live s t) -> exists t', enabled (bs_wp b) s t' = true.
+Proof. exact every_schedule_deadlock_free. Qed.
+
+Theorem C01_every_schedule_no_self_wait :
+  forall b sched t l, wfB b = true ->
+  let sc := bs_sc b in
+  let s := fst (run_sched (bs_wp b) (sc_env sc) (sc_nlocks sc) (binit b) sched) in
+  live s t -> waits_for (bs_wp b) s t l -> ~ holds (sc_nlocks sc) (b_w s) t l.
+Proof. exact every_schedule_no_self_wait. Qed.
+
+Theorem C01_model_never_deadlocks :
+  forall b sched, wfB b = true ->
+  let st := bo_status (model_bobs b sched) in st <> BDeadlock /\ st <> BSelfWait.
+Proof. exact model_never_reports_deadlock. Qed.
+
+Check C01_every_schedule :
+  forall b sched, wfB b = true ->
+  stable_state (sc_nlocks (bs_sc b)) (bs_wp b) (rk_of (bs_sc b)) (bound_of (bs_sc b))
+               (fst (run_sched (bs_wp b) (sc_env (bs_sc b)) (sc_nlocks (bs_sc b)) (binit b) sched)).
+
+(* the hypotheses are met by the example scenario above (four collection kinds sharing locks in opposite orders) *)
+Example C01_wfB_example : wfB ex01 = true.
+Proof. vm_compute. reflexivity. Qed.
+
+(* and the test is not vacuous in the other direction: a lock owned by an owned collection that is also listed
+   directly by a sorting collection (what OwnedLockable rules out, C15) is reached in two incomparable orders *)
+Example C01_wfB_rejects_shared_owned_member :
+  wfB (mkbs (mks 2 0 [0; 2] [1]
+                 [SOwned 0 (SSeq [SLeaf KMutex 1; SLeaf KMutex 0]);
+                  SBoxed (SSeq [SLeaf KMutex 0; SLeaf KMutex 1])] [] [] [] 8 []) false
+            [[AKeyGet; AAcquire 0 Ex FGuard; AGuardDrop]; [AKeyGet; AAcquire 1 Ex FGuard; AGuardDrop]]) = false.
+Proof. vm_compute. reflexivity. Qed.
+(* nor does it accept a thread that keeps a guard for ever *)
+Example C01_wfB_rejects_kept_guard :
+  wfB (mkbs (mks 1 0 [0] [] [SLeaf KMutex 0] [] [] [] 8 []) false [[AKeyGet; AAcquire 0 Ex FGuard]]) = false.
+Proof. vm_compute. reflexivity. Qed.
+
 Print Assumptions C01_no_deadlock.
 Print Assumptions C01_no_self_wait.
 Print Assumptions C01_stable_test_sound.
 Print Assumptions C01_model_state_not_deadlocked.
+Print Assumptions C01_every_schedule.
+Print Assumptions C01_every_schedule_deadlock_free.
+Print Assumptions C01_every_schedule_no_self_wait.
+Print Assumptions C01_model_never_deadlocks.
